@@ -2,7 +2,7 @@ SPECIFICATION GSpec
 CONSTANTS
   Layouts = {10, 20, 30, 11, 21, 22}
   Depth = 7
-  Depth2 = 6
+  Depth2 = 5
   Upd = {"a1", "a2", "a3", "b1", "b2"}
   UpdAny = FALSE
 CONSTRAINT Bound
